@@ -23,3 +23,18 @@ package rel
 //@ func jsonUnescape(i)
 //@   tags C13, C10
 //@   returns (v, err)
+
+// NewString / NewOffsetString never return a nil interface (None for the empty slice, a String otherwise).
+// (additional clause, merged with the contract of NewString in rel/verif_contracts.go: identical header)
+//@ func NewString(s)
+//@   ensures[C13] nonnil: result != nil
+//@   ensures[C13] runes: len(s) == 0 ? result is EmptySet : (result is String && result.(String).s == s && result.(String).offset == 0)
+
+// AsString: a String is itself; any other empty set is the empty String; everything else is not a string.
+//@ func AsString(v)
+//@   tags C10, C13
+//@   assigns nothing
+//@   returns (s, is)
+//@   ensures str: v is String ==> (is && s == v.(String))
+//@   ensures other: (!(v is String) && is) ==> (len(s.s) == 0 && s.offset == 0)
+//@   ensures notset: !(v is Set) ==> !is
